@@ -24,6 +24,7 @@ Exec(x, i) ==
     [] i.k = "bl"   -> ExecBL(x, i)
     [] i.k = "blxr" -> ExecBLXr(x, i)
     [] i.k = "bx"   -> ExecBX(x, i)
+    [] i.k = "bxj"  -> ExecBXJ(x, i)
     [] i.k = "cbz"  -> ExecCBZ(x, i)
     [] i.k = "it"   -> ExecIT(x, i)
     [] i.k = "tb"   -> ExecTB(x, i)
@@ -55,7 +56,7 @@ Exec(x, i) ==
     [] i.k = "udf"  -> Raise(x, "undef")
     [] i.k = "svc"  -> Raise(x, "svc")
     [] OTHER -> NotImpl(x, "spec-missing:" \o i.k)
-Executable == {"dp", "adr", "movw", "movt", "b", "bl", "blxr", "bx", "cbz", "it", "udf", "svc", "ls", "lsd", "ldm", "stm", "tb",
+Executable == {"dp", "adr", "movw", "movt", "b", "bl", "blxr", "bx", "bxj", "cbz", "it", "udf", "svc", "ls", "lsd", "ldm", "stm", "tb",
                "msr", "mrs", "cps", "setend", "hint", "excret", "rfe", "srs", "ldmx", "stmu", "smc",
                "mul", "hmul", "div", "qarith", "sat", "par", "misc", "coproc", "ldrex", "strex"}
 
